@@ -32,6 +32,8 @@ def _index(cls, arr, pad):
 def build(d):
     """Construct the real layout described by d (see model/layoutsem.py for the format)."""
     c = d["class"]
+    if c == "__prebuilt__":
+        return d["object"]      # a layout object supplied by the caller (C18 wraps nodes in VirtualArray)
     par = d.get("parameters") or None
     pad = d.get("_pad") or {}
     if c == "NumpyArray":
